@@ -673,6 +673,17 @@ func genC17Journal(r *RNG) (string, []string, int, bool) {
 	if r.Chance(1, 5) {
 		args = append(args, "-m", "2")
 	}
+	if r.Chance(1, 3) {
+		// valued, with some accounts broken down by commodity (-s): rows with and without a commodity cell share one table
+		// (seeded change C17-d left the rows of the other accounts and the total rows one cell short)
+		for _, c := range comms[1:ncomm] {
+			fmt.Fprintf(&b, "2019-12-31 price %s %d.%02d CHF\n", c, r.Range(0, 300), r.Range(1, 99))
+		}
+		args = append(args, "-v", "CHF", "-s", Pick(r, []string{"Assets:Bank", "^Assets", "Expenses", "Konto$", "Liabilities|Income", "Nothing", "."}))
+		if r.Chance(1, 4) {
+			args = append(args, "-s", Pick(r, []string{"Equity", "Food"}))
+		}
+	}
 	return b.String(), args, digits, k
 }
 
